@@ -88,6 +88,8 @@ struct Writer2 {
     /// a half-written metadata file left by a crash (removed after the step's reads, as an
     /// orphan cleanup would)
     torn: Option<PathBuf>,
+    /// naming of metadata files when there is no hint file (see `commit_metadata`)
+    name_style: u8,
 }
 
 fn uri_of(rng: &mut Rng, abs: &Path, table_dir: &Path) -> String {
@@ -190,7 +192,18 @@ impl Writer2 {
         self.version += 1;
         let mdir = self.dir.join("metadata");
         std::fs::create_dir_all(&mdir).unwrap();
-        let name = if self.hint_style { format!("v{}.metadata.json", self.version) } else { format!("{:05}-{:08x}.metadata.json", self.version, rng.below(u32::MAX as u64)) };
+        // without a hint file the reader orders metadata files by last-updated-ms (file name
+        // only breaks ties), so the names need not follow the commit order: zero-padded
+        // (pyiceberg), a bare random id, or v<N> whose string order breaks at v10
+        let name = if self.hint_style {
+            format!("v{}.metadata.json", self.version)
+        } else {
+            match self.name_style {
+                0 => format!("{:05}-{:08x}.metadata.json", self.version, rng.below(u32::MAX as u64)),
+                1 => format!("{:08x}-{:04x}.metadata.json", rng.below(u32::MAX as u64), self.version),
+                _ => format!("v{}.metadata.json", 7 + self.version),
+            }
+        };
         let text = self.metadata_json();
         if stop_after == 0 {
             return;
@@ -266,6 +279,7 @@ pub fn run_c17(_p: &str, tier: Tier, run_seed: u64, _ov: &Value) -> RunOut {
         rows: BTreeMap::new(),
         hint_as_v: rng.coin(),
         torn: None,
+        name_style: rng.fork(0x9a3e).below(3) as u8,
     };
     log.push(format!("v1={} hint={} hint_as_v={}", w.v1, w.hint_style, w.hint_as_v));
     let pool = rayon::ThreadPoolBuilder::new().num_threads(1).build().unwrap();
@@ -279,7 +293,10 @@ pub fn run_c17(_p: &str, tier: Tier, run_seed: u64, _ov: &Value) -> RunOut {
                 let kind = if w.current.is_none() { 0 } else { rng.below(12) };
                 let snapshot_id = 1000 + step as i64 * 7 + rng.below(5) as i64;
                 // equal timestamps happen (ties in last-updated-ms)
-                w.clock += if rng.chance(1, 4) { 0 } else { 1 + rng.below(1000) as i64 };
+                let tick = if rng.chance(1, 4) { 0 } else { 1 + rng.below(1000) as i64 };
+                // a tie in last-updated-ms is broken by file name: only the hint file and the
+                // zero-padded names order like the commits, so the other styles get distinct times
+                w.clock += if tick == 0 && !w.hint_style && w.name_style != 0 { 1 } else { tick };
                 let mut refuse: Option<&'static str> = None;
                 let mut opname = "append";
                 let before_live = w.live_now();
